@@ -384,6 +384,24 @@ func (c *Cluster) StartNode(i int) error {
 	return nil
 }
 
+// ReadyLoopNoise installs seeded scheduling noise inside every ready-loop: at
+// one in `every` of the loop's "ready" / "afterSave" / "beforeSendFollower"
+// events the loop sleeps 0-11 ms, so that stops, deletions and snapshots meet
+// a loop that is in the middle of a step. For checks that do not use OnEvent
+// themselves.
+func (c *Cluster) ReadyLoopNoise(seed uint64, every uint64) {
+	var ctr uint64
+	c.OnEvent = func(n *Node, g uuid.UUID, point string, args ...interface{}) {
+		switch point {
+		case "ready", "afterSave", "beforeSendFollower":
+			h := (atomic.AddUint64(&ctr, 1)*0x9e3779b97f4a7c15 ^ seed) >> 40
+			if h%every == 0 {
+				time.Sleep(time.Duration(h%12) * time.Millisecond)
+			}
+		}
+	}
+}
+
 // Diag describes every node's membership view and zero-group state. Each
 // read is guarded: on a wedged node the address book's lock may never be free.
 func (c *Cluster) Diag() string {
